@@ -217,6 +217,8 @@ type peerConn struct {
 	users        int32
 	host         int      // index of the host this connection was dialled to (Client-level runs)
 	held         *heldReq // a request the peer has read but not answered yet (released by the script)
+	closeGate    chan struct{} // non-nil: Close reports on closeSeen and waits for the gate (op c10closeidle)
+	closeSeen    chan struct{}
 }
 
 // heldReq is a request kept unanswered by the peer until the script releases it.
@@ -429,6 +431,14 @@ func (p *peerConn) release() {
 }
 
 func (p *peerConn) Close() error {
+	p.mu.Lock()
+	gate, seen := p.closeGate, p.closeSeen
+	p.closeGate = nil
+	p.mu.Unlock()
+	if gate != nil {
+		close(seen)
+		<-gate
+	}
 	p.mu.Lock()
 	was := p.clientClosed
 	p.clientClosed = true
